@@ -100,9 +100,29 @@ func parseResp(b []byte) (resp, bool) {
 
 func (r resp) hasName(name string) bool { return bytes.Contains(r.Raw, encName(name)) }
 
-// hasAddr: the 4 address bytes preceded by RDLENGTH 4 (so that random bytes in names/ids do not match)
+// opcode of the reply's flags word
+func (r resp) opcode() int { return int(r.Flags>>11) & 0xF }
+
+// hasAddr: the 4 address bytes as NB RDATA, in either layout (so that random bytes in names/ids do not
+// match): preceded by RDLENGTH 4 (the bare address, the library's convention), or in an RDATA of
+// RDLENGTH 6n made of n entries NB_FLAGS(2) + address(4) (RFC 1002 4.2.1.3).
 func (r resp) hasAddr(ip net.IP) bool {
-	return bytes.Contains(r.Raw, append([]byte{0, 4}, ip.To4()...))
+	a := ip.To4()
+	if bytes.Contains(r.Raw, append([]byte{0, 4}, a...)) {
+		return true
+	}
+	for i := 0; i+2 <= len(r.Raw); i++ {
+		l := int(binary.BigEndian.Uint16(r.Raw[i:]))
+		if l == 0 || l%6 != 0 || i+2+l > len(r.Raw) {
+			continue
+		}
+		for e := i + 2; e < i+2+l; e += 6 {
+			if bytes.Equal(r.Raw[e+2:e+6], a) {
+				return true
+			}
+		}
+	}
+	return false
 }
 
 // ---- servers ---------------------------------------------------------------------------------------
@@ -220,8 +240,17 @@ type client struct {
 	to     *net.UDPAddr
 	srv    *running
 	seen   map[uint16]resp
+	reqOp  map[uint16]int // opcode of the last request this client sent under an id
 	unsent []uint16
 	pause  time.Duration // between the segments of a TCP message (0: yield the processor only)
+}
+
+// isWack: the reply is a WACK (RFC 1002 4.2.16: opcode 7, the request's transaction id) to a request
+// of this client that was not itself sent with opcode 7. A WACK asks the requester to wait; it may
+// precede the response and is not the response.
+func (c *client) isWack(p resp) bool {
+	op, sent := c.reqOp[p.ID]
+	return len(p.Raw) >= 12 && p.opcode() == 7 && sent && op != 7
 }
 
 // note records a message received from the server.
@@ -231,13 +260,16 @@ func (c *client) note(b []byte) {
 	}
 	p, _ := parseResp(b)
 	p.ID = binary.BigEndian.Uint16(b)
+	if c.srv != nil && !c.srv.wasSent(p.ID) {
+		c.unsent = append(c.unsent, p.ID)
+	}
+	if c.isWack(p) {
+		return // carries an id that was sent (checked above); not counted as the response
+	}
 	if c.seen == nil {
 		c.seen = map[uint16]resp{}
 	}
 	c.seen[p.ID] = p
-	if c.srv != nil && !c.srv.wasSent(p.ID) {
-		c.unsent = append(c.unsent, p.ID)
-	}
 }
 
 // neverSent describes the replies noted above (nil: none).
@@ -284,6 +316,12 @@ func (c *client) close() {
 func (c *client) send(b []byte, cuts []int) error {
 	if len(b) >= 2 && c.srv != nil {
 		c.srv.noteSent(binary.BigEndian.Uint16(b))
+	}
+	if len(b) >= 4 {
+		if c.reqOp == nil {
+			c.reqOp = map[uint16]int{}
+		}
+		c.reqOp[binary.BigEndian.Uint16(b)] = int(binary.BigEndian.Uint16(b[2:])>>11) & 0xF
 	}
 	if c.kind == "udp" {
 		_, err := c.udp.WriteToUDP(b, c.to)
@@ -371,7 +409,7 @@ func (c *client) exchange(r req, timeout time.Duration) (resp, bool) {
 			if err != nil {
 				break
 			}
-			if p, ok := parseResp(b); ok && p.ID == r.ID {
+			if p, ok := parseResp(b); ok && p.ID == r.ID && !c.isWack(p) {
 				return p, true
 			}
 		}
